@@ -1,7 +1,8 @@
 /-
-  Tie B for C01: source pins.  The model was written against exactly these source lines / this
-  statement order: the terminal current density expression and the three lines of solve_for_observables
-  (supercurrent, Poisson right-hand side, normal current).
+  Tie B for C01: source pins.  The model was written against exactly these expressions: the terminal current
+  density and the two operator expressions of solve_for_observables (normal current; Poisson right-hand side with the
+  supercurrent inlined).  They are taken in a normal form in which single-assignment locals are inlined and
+  assignment targets dropped, so naming a sub-expression or hoisting an attribute into a local does not change them.
   `Tdgl/Generated/SourcePins.lean` is regenerated from /repo on every run; if the source changes, this file no
   longer checks and the check searches for a failing input (DESIGN.md §4.2).
 -/
@@ -12,8 +13,8 @@ open Tdgl.Gen
 namespace Tdgl.C01
 
 theorem C01_bridge_source_pins :
-    pin_terminal_density = "current_density = -1 / terminal.length * sum((currents.get(name, 0) for name in self.terminal_names if name != terminal.name))" ∧
-    pin_observables = "supercurrent = operators.get_supercurrent(psi) ; rhs = operators.divergence @ (supercurrent - dA_dt) - operators.mu_boundary_laplacian @ self.mu_boundary ; normal_current = -(operators.mu_gradient @ mu) - dA_dt ; rhs = cupy.asnumpy(rhs)" := by
+    pin_terminal_density = "-1 / terminal.length * sum((self.current_func(time).get(name, 0) for name in self.terminal_names if name != terminal.name))" ∧
+    pin_observables = "-(self.operators.mu_gradient @ mu) - dA_dt ; self.operators.divergence @ (self.operators.get_supercurrent(psi) - dA_dt) - self.operators.mu_boundary_laplacian @ self.mu_boundary" := by
   refine ⟨?_, ?_⟩ <;> rfl
 
 end Tdgl.C01
